@@ -13,6 +13,53 @@ static PEAK: AtomicI64 = AtomicI64::new(0);
 static CAP: AtomicI64 = AtomicI64::new(i64::MAX);
 pub static CURRENT_CASE: AtomicU64 = AtomicU64::new(0);
 static ALLOCS: AtomicU64 = AtomicU64::new(0);
+/// allocator calls a single case may make before the worker gives it up (`A <idx> <calls>`, exit 96);
+/// u64::MAX = no limit. Deterministic, so it does not depend on how busy the machine is.
+static CALL_CAP: AtomicU64 = AtomicU64::new(u64::MAX);
+static CALL_MARK: AtomicU64 = AtomicU64::new(0);
+
+fn over_calls(calls: u64) -> ! {
+    let mut buf = [0u8; 64];
+    let mut n = 0;
+    for c in b"A " {
+        buf[n] = *c;
+        n += 1;
+    }
+    for v in [CURRENT_CASE.load(Ordering::Relaxed), calls] {
+        let mut d = [0u8; 20];
+        let mut k = 0;
+        let mut v = v;
+        if v == 0 {
+            d[0] = b'0';
+            k = 1;
+        }
+        while v > 0 {
+            d[k] = b'0' + (v % 10) as u8;
+            v /= 10;
+            k += 1;
+        }
+        while k > 0 {
+            k -= 1;
+            buf[n] = d[k];
+            n += 1;
+        }
+        buf[n] = b' ';
+        n += 1;
+    }
+    buf[n - 1] = b'\n';
+    unsafe {
+        libc::write(1, buf.as_ptr() as *const libc::c_void, n);
+        libc::_exit(96);
+    }
+}
+
+#[inline]
+fn count_call() {
+    let calls = ALLOCS.fetch_add(1, Ordering::Relaxed) + 1;
+    if calls.wrapping_sub(CALL_MARK.load(Ordering::Relaxed)) > CALL_CAP.load(Ordering::Relaxed) {
+        over_calls(calls - CALL_MARK.load(Ordering::Relaxed));
+    }
+}
 
 fn over_cap(live: i64) -> ! {
     // no allocation allowed here: raw write of a marker line, then leave without unwinding
@@ -61,7 +108,7 @@ unsafe impl GlobalAlloc for Counting {
     unsafe fn alloc(&self, l: Layout) -> *mut u8 {
         if ENABLED.load(Ordering::Relaxed) {
             let live = LIVE.fetch_add(l.size() as i64, Ordering::Relaxed) + l.size() as i64;
-            ALLOCS.fetch_add(1, Ordering::Relaxed);
+            count_call();
             if live > PEAK.load(Ordering::Relaxed) {
                 PEAK.store(live, Ordering::Relaxed);
             }
@@ -80,6 +127,7 @@ unsafe impl GlobalAlloc for Counting {
     unsafe fn realloc(&self, p: *mut u8, l: Layout, new_size: usize) -> *mut u8 {
         if ENABLED.load(Ordering::Relaxed) {
             let delta = new_size as i64 - l.size() as i64;
+            count_call();
             let live = LIVE.fetch_add(delta, Ordering::Relaxed) + delta;
             if live > PEAK.load(Ordering::Relaxed) {
                 PEAK.store(live, Ordering::Relaxed);
@@ -106,4 +154,15 @@ pub fn mark() -> i64 {
 
 pub fn peak_since(mark: i64) -> i64 {
     (PEAK.load(Ordering::Relaxed) - mark).max(0)
+}
+
+/// start counting allocator calls for one case; `cap` = calls after which the case is given up
+pub fn mark_calls(cap: u64) {
+    CALL_MARK.store(ALLOCS.load(Ordering::Relaxed), Ordering::Relaxed);
+    CALL_CAP.store(cap, Ordering::Relaxed);
+}
+
+pub fn calls_since_mark() -> u64 {
+    CALL_CAP.store(u64::MAX, Ordering::Relaxed);
+    ALLOCS.load(Ordering::Relaxed).wrapping_sub(CALL_MARK.load(Ordering::Relaxed))
 }
